@@ -52,6 +52,11 @@ ENGINES = [
      "serves_properties": ["C11", "C12"],
      "kind_free_text": "error bounds derived in TLA+ from the quantisation the stream declares (DQT tables x IDCT/colour gains; QCD step "
                        "sizes x 9-7 synthesis gains); TLC evaluates them on round-trip traces"},
+    {"name": "jpegseq", "path": "spec/JpegSeq.tla spec/MC_JpegSeq.tla spec/JpegSeqGen.tla spec/InteropTrace.tla",
+     "serves_properties": ["C15"],
+     "kind_free_text": "T.81 baseline sequential entropy coder (MCU traversal for H,V sampling, DC prediction with restart intervals, "
+                       "AC run/size with ZRL/EOB, Huffman, stuffing, marker segments) as encoder machine + F.2.2 decoder; model-checked; "
+                       "the encoder machine generates interchange streams for the library's decoders; trace spec compares with image/jpeg"},
 ]
 
 A_CONTRACT = ("TLC 1.8.0 and the CommunityModules Json reader are trusted; pixel buffers are unpacked to container words and "
@@ -186,8 +191,20 @@ CHECKS = {
                      "encoder's registers and bytes step by step (verif hook), and T1 block identity under every code-block style.",
                 note="EBCOT T1 context formation is not transcribed (contract level only); forward-DWT deviations for length-1 "
                      "odd-origin windows are reported as INFO (the inverse is consistent); known finding: lazy mode without TERMALL"),
+
+    "C15": dict(engine="jpegseq", level="model_checking", design_ref="DESIGN.md 7/C15",
+                technique="T.81 baseline entropy coder in TLA+ (model-checked) generates streams replayed into the library decoders; "
+                          "TLC trace validation against image/jpeg and against the specified DC-only image",
+                text="MC_JpegSeq: the encoder machine and the F.2.2 decoder are inverse for 4 (thorough 11) geometries x grey/4:4:4/"
+                     "4:2:2/4:2:0/4:4:0 x restart intervals x 2 table families x block-pattern phases, with restart/stuffing/traversal "
+                     "invariants; JpegSeqGen simulation emits 400 (4000) interchange streams (sizes 1..33, custom/only-used Huffman "
+                     "tables, table-id assignments, DHT/DQT packing, JFIF/Adobe, restart intervals) decoded by baseline.Decode and "
+                     "extended.Decode; image/jpeg.Encode streams and the library's own streams (every quality, sizes 1..33^2) both "
+                     "ways; InteropTrace checks acceptance, geometry, packing and the 2 / 6 tolerance per sample.",
+                note="image/jpeg is the independent implementation the property names; samples above 1500 per image are compared by "
+                     "the harness (maximum difference) and only the scalar is judged by TLC"),
 }
 
 _PENDING = "check not built yet at this commit (construction order in DESIGN.md section 10); no claim is made"
-NOT_APPLICABLE = {p: _PENDING for p in ["C15"]}
+NOT_APPLICABLE = {}
 
